@@ -543,7 +543,7 @@ impl Property for C08 {
         let cfg = PartCfg {
             name: "random",
             rule: "random sequences (10-70 ops): 3 signers, nonces relative to the account nonce (-3..+11), 3 variants, wrong chain id, garbage RLP, interleaved inscription calls, finalise, mine 1-3 / 7-11, commit, clearCaches, reorgs; reference pool model (with per-block snapshots for reorg/clear) compared after every call: returned receipts (count, hashes, consecutive indexes), txpool_content(+From), account nonces; at the end on-chain nonces per signer are 0,1,2,... Same non-triviality rule",
-            cases: ctx.tier.pick(480, 12_000),
+            cases: ctx.tier.pick(1500, 20_000),
             max_shrink_iters: ctx.tier.pick(400, 1500),
         };
         found.extend(explore(ctx, ev, &cfg, strategy, check));
